@@ -26,8 +26,11 @@ fn naive_pos(h: &[u8], ns: &[u8], rev: bool) -> Option<usize> {
 }
 
 fn one_call(r: &mut Lcg, shared: &Shared) -> u64 {
-    let len = r.below(90) as usize;
-    let dens = r.below(20) + 1;
+    // one call in four works on a haystack of several 64 KiB blocks with a handful of matches
+    // (an answer assembled block-wise or from a partial scan is wrong there)
+    let big = r.below(4) == 0;
+    let len = if big { 66_000 + r.below(250_000) as usize } else { r.below(90) as usize };
+    let dens = if big { 30_000 + r.below(60_000) } else { r.below(20) + 1 };
     let ns = [b'a', b'b', b'c'];
     let k = 1 + r.below(3) as usize;
     let off = r.below(16) as usize;
